@@ -355,6 +355,14 @@ class Normaliser:
         t = blk["term"]
         if t["k"] == "call" and t.get("dest") is not None and t["dest"]["l"] == local:
             st = "U"
+            # `x?` on its failure arm: from_residual(None) is None, from_residual(Err(e)) is Err(e.into())
+            c = t.get("callee") or {}
+            if c.get("path") == "std::ops::FromResidual::from_residual" and c.get("args") and not t["dest"].get("p"):
+                selfty = c["args"][0]
+                if selfty.startswith("std::option::Option<"):
+                    st = ("v", "std::option::Option", 0)
+                elif selfty.startswith("std::result::Result<"):
+                    st = ("v", "std::result::Result", 1)
         return st
 
     def _clone_blocks(self, gj, ids, redirect):
